@@ -30,14 +30,21 @@ import (
 )
 
 type kind struct {
-	K     string `json:"k"` // file dir missing deleted link outside relink
+	K     string `json:"k"` // file dir missing deleted link outside relink via
 	To    int    `json:"to,omitempty"`
 	Spell string `json:"spell,omitempty"` // rel abs dotdot
 }
 
 func kindsFor(n int, thorough bool) []kind {
-	ks := []kind{{K: "file"}, {K: "dir"}, {K: "missing"}, {K: "deleted"}, {K: "outside"}, {K: "outside", Spell: "abs"}}
+	// outside(root): like outside(rel), but the path it would reach is named "root/x" (a directory
+	// that exists in the image) instead of "x"
+	ks := []kind{{K: "file"}, {K: "dir"}, {K: "missing"}, {K: "deleted"}, {K: "outside"}, {K: "outside", Spell: "abs"}, {K: "outside", Spell: "root"}}
 	for j := 0; j < n; j++ {
+		if n > 1 && (n <= 3 || thorough) {
+			// a link whose target goes THROUGH entry j ("e<j>/child"): entry j may itself be a link
+			// (to a directory, to a file, into a cycle)
+			ks = append(ks, kind{K: "via", To: j})
+		}
 		if n > 1 && (n <= 3 || thorough) {
 			// a link that layer 1 re-points from entry j to entry j+1: its resolution depends on the view
 			ks = append(ks, kind{K: "relink", To: j, Spell: "rel"})
@@ -53,7 +60,7 @@ func kindsFor(n int, thorough bool) []kind {
 func name(i int) string { return fmt.Sprintf("d/e%d", i) }
 
 func build(g []kind) [][]byte {
-	l0 := []imgkit.Entry{imgkit.Dir("d"), imgkit.File("x", "outside-target")} // "x" is what a clamped "../../x" would hit
+	l0 := []imgkit.Entry{imgkit.Dir("d"), imgkit.File("x", "outside-target"), imgkit.Dir("root"), imgkit.File("root/x", "outside-target")} // "x", "root/x": what a clamped "../../x", "../../root/x" would hit
 	var l1 []imgkit.Entry
 	for i, k := range g {
 		switch k.K {
@@ -64,6 +71,8 @@ func build(g []kind) [][]byte {
 		case "deleted":
 			l0 = append(l0, imgkit.File(name(i), "content-of-"+name(i)))
 			l1 = append(l1, imgkit.Whiteout(name(i)))
+		case "via":
+			l0 = append(l0, imgkit.Sym(name(i), fmt.Sprintf("e%d/child", k.To)))
 		case "relink":
 			l0 = append(l0, imgkit.Sym(name(i), fmt.Sprintf("e%d", k.To)))
 			l1 = append(l1, imgkit.Sym(name(i), fmt.Sprintf("e%d", (k.To+1)%len(g))))
@@ -73,6 +82,9 @@ func build(g []kind) [][]byte {
 			t := "../../x"
 			if k.Spell == "abs" {
 				t = "/d/../../x"
+			}
+			if k.Spell == "root" {
+				t = "../../root/x"
 			}
 			l0 = append(l0, imgkit.Sym(name(i), t))
 		case "link":
@@ -121,6 +133,11 @@ func resolve(g []kind, i, max, view int) expect {
 				return expect{"ok-" + k.K, cur, hops}
 			}
 			return expect{"loop", cur, hops}
+		case "via":
+			// The target runs through another entry. Whether a view resolves links in the middle of a
+			// path is not part of the property; what is: the query terminates, and if it yields a file
+			// it is the right one (checked by the caller).
+			return expect{"via", cur, hops}
 		case "missing", "outside", "deleted":
 			if hops <= max {
 				return expect{"notexist", cur, hops}
@@ -173,6 +190,12 @@ func graphStr(g []kind) string {
 		}
 		if k.K == "outside" && k.Spell == "abs" {
 			s = "outside(abs)"
+		}
+		if k.K == "outside" && k.Spell == "root" {
+			s = "outside(../../root/x)"
+		}
+		if k.K == "via" {
+			s = fmt.Sprintf("->e%d/child", k.To)
 		}
 		parts = append(parts, fmt.Sprintf("e%d:%s", i, s))
 	}
@@ -264,7 +287,22 @@ func checkGraphOrder(r *ev.Run, g []kind, depths []int, rev bool) {
 				case o = <-done:
 				case <-time.After(60 * time.Second):
 					viol("Stat/Open/ReadDir", "resolution-does-not-terminate", "no answer within 60 s")
+					r.Abort() // the stuck query keeps a CPU busy: schedule nothing more next to it
 					return
+				}
+				if want.class == "via" {
+					// termination was established by the watchdog; the only file that can be right is the
+					// child of the directory that the intermediate entry finally resolves to
+					through := resolve(g, g[want.final].To, 1000, vi)
+					for _, c := range []string{o.statC, o.openC} {
+						if c == "ok" && (through.class != "ok-dir" || o.isDir) {
+							viol("Stat/Open", "via-link-wrong-file", fmt.Sprintf("resolved to something (dir=%v size=%d content %q) although e%d leads to %s", o.isDir, o.size, o.content, g[want.final].To, through.class))
+						}
+					}
+					if o.openC == "ok" && o.content != "c" {
+						viol("Open", "via-link-wrong-file", fmt.Sprintf("content %q", o.content))
+					}
+					continue
 				}
 				if !accepts(want.class, o.statC) {
 					viol("Stat", "stat-wrong-class", "got "+o.statC)
@@ -375,5 +413,5 @@ func main() {
 	}
 	os.RemoveAll(base)
 	r.Set("bound", map[string]any{"entries_completed": completed, "depths": depths})
-	r.Finish(fmt.Sprintf("every kind assignment to n<=%d entries (file, dir, missing, deleted by layer 1, outside-root symlink spelled relative (../../x) and absolute (/d/../../x), symlink to each entry spelled relative/absolute%s, symlink re-pointed by layer 1 from entry j to j+1 (n<=3; thorough all n)) x MaxSymlinkDepth 0..6 x every entry x {Stat, Open+Read, ReadDir} on all three views (layer-0 view where deleted entries still exist, intermediate view with whiteout nodes, final view) of the real image vs the per-view reference resolver, views queried 0,1,2 and, on a fresh load at depth 6, 2,1,0; each query under a 60 s watchdog; non-trivial = queries whose chain has >=1 hop", maxN, map[bool]string{true: "/with ..", false: ""}[r.Thorough()]), completed >= maxN)
+	r.Finish(fmt.Sprintf("every kind assignment to n<=%d entries (file, dir, missing, deleted by layer 1, outside-root symlink spelled relative (../../x, ../../root/x) and absolute (/d/../../x), symlink whose target runs through another entry (e<j>/child; n<=3, thorough all n), symlink to each entry spelled relative/absolute%s, symlink re-pointed by layer 1 from entry j to j+1 (n<=3; thorough all n)) x MaxSymlinkDepth 0..6 x every entry x {Stat, Open+Read, ReadDir} on all three views (layer-0 view where deleted entries still exist, intermediate view with whiteout nodes, final view) of the real image vs the per-view reference resolver, views queried 0,1,2 and, on a fresh load at depth 6, 2,1,0; each query under a 60 s watchdog; non-trivial = queries whose chain has >=1 hop", maxN, map[bool]string{true: "/with ..", false: ""}[r.Thorough()]), completed >= maxN)
 }
